@@ -137,7 +137,7 @@ theorem string_chunk_truncates (data : Bytes) (hlen : (chunk data).length < 2 ^ 
     simp only [Gen.sizeBad, Bool.or_eq_false_iff, decide_eq_false_iff_not]; omega
   have hn : nextChunkSize (chunk data) St.init = .ok (data.length % 2 ^ 32) ⟨0, [(0, 4)]⟩ := by
     unfold nextChunkSize
-    simp only [St.init, c1, c2, Gen.hdrReadOff, Gen.hdrReadLen, Gen.rdSizeBits, Nat.zero_add, hsz, c3, St.read]
+    simp only [St.init, Gen.strPtr, c1, c2, Gen.hdrReadOff, Gen.hdrReadLen, Gen.rdSizeBits, Nat.zero_add, hsz, c3, St.read]
     rfl
   unfold readChunkAsString
   rw [hn, Res.bind_ok]
